@@ -594,6 +594,27 @@ def g_same_typedefs(rnd):
     return files
 
 
+def g_enum_bits(rnd):
+    """enumerations and bits, among them bits that share an explicit position (goyang accepts that): what the type answers
+    about names and values is the same on every call and every run"""
+    files = []
+    for mi in range(rnd.randint(1, 2)):
+        body = ""
+        for ti in range(rnd.randint(1, 3)):
+            nb = rnd.randint(2, 5)
+            poss = [rnd.choice([0, 1, 1, 2, 3, 3, 7]) for _ in range(nb)]
+            bits = " ".join("bit %s%d { position %d; }" % (rnd.choice(["b", "flag", "x"]), j, poss[j]) if rnd.random() < 0.8
+                            else "bit auto%d;" % j for j in range(nb))
+            body += "  typedef bt%d_%d { type bits { %s } }\n  leaf lb%d_%d { type bt%d_%d; }\n" % (mi, ti, bits, mi, ti, mi, ti)
+        ne = rnd.randint(2, 4)
+        enums = " ".join("enum e%d { value %d; }" % (j, j * rnd.choice([1, 3]) - 2) if rnd.random() < 0.6 else "enum a%d;" % j
+                         for j in range(ne))
+        body += "  leaf le%d { type enumeration { %s } }\n" % (mi, enums)
+        body += "  leaf lu%d { type union { type bits { bit p { position 4; } bit q { position 4; } bit r; } type int8; } }\n" % mi
+        files.append(mod("eb%d" % mi, body))
+    return files
+
+
 def g_random(rnd):
     return files_of_schema(sg.random_schema(rnd, n_modules=rnd.randint(2, 4)))
 
@@ -634,11 +655,11 @@ GENS = [("random", g_random, 8), ("random-faulty", g_random_faulty, 3), ("identi
         ("posix-patterns", g_posix_patterns, 2), ("identity-rings", g_identity_rings, 2), ("superseded", g_superseded, 2),
         ("deferred-augments", g_deferred_augments, 2), ("submodule-clash", g_submodule_clash, 2),
         ("case-siblings", g_case_siblings, 2), ("late-errors", g_late_errors, 2), ("many-revisions", g_many_revisions, 2),
-        ("same-typedefs", g_same_typedefs, 1)]
+        ("same-typedefs", g_same_typedefs, 1), ("enum-bits", g_enum_bits, 1)]
 # families whose defects only show as a difference between runs with the SAME input: more repeats
 REPEATS = {"ident-shared-prefix": 6, "typedef-cycles": 6, "rev-norev": 5, "identities": 5, "posix-patterns": 6, "typedefs": 5,
            "identity-rings": 6, "deferred-augments": 8, "submodule-clash": 8,
-           "case-siblings": 6, "many-revisions": 6}
+           "case-siblings": 6, "many-revisions": 6, "enum-bits": 6}
 # how many orders of a case are also run with a Process in between (default 1)
 INCREMENTAL = {"superseded": 6, "rev-norev": 3, "two-revisions": 3}
 # always present, whatever the seed draws
@@ -646,7 +667,7 @@ CORPUS = [("ident-shared-prefix", g_ident_shared_prefix, 6), ("typedef-cycles", 
           ("posix-patterns", g_posix_patterns, 6), ("identity-rings", g_identity_rings, 6), ("superseded", g_superseded, 4),
           ("deferred-augments", g_deferred_augments, 8), ("submodule-clash", g_submodule_clash, 8),
           ("case-siblings", g_case_siblings, 6), ("late-errors", g_late_errors, 8), ("many-revisions", g_many_revisions, 6),
-          ("same-typedefs", g_same_typedefs, 8)]
+          ("same-typedefs", g_same_typedefs, 8), ("enum-bits", g_enum_bits, 8)]
 
 
 def go_line(files, opts="-", order=None):
@@ -845,6 +866,11 @@ def probe_problems(j):
     for k, v in (j.get("print") or {}).items():
         if v[1] != "true":
             out.append("two Entry.Print calls on module %s give different text" % k)
+    for path, v in (j.get("enums") or {}).items():
+        if v[1] != "true":
+            out.append("the enumeration/bits type of %s answers differently when asked twice: %s" % (path, v[0][:200]))
+        if v[2] != "true":
+            out.append("ValueMap() of the type of %s disagrees with Name(): %s" % (path, v[0][:200]))
     for ns, v in (j.get("byns") or {}).items():
         if v[0] != v[1]:
             out.append("FindModuleByNamespace(%s) answers %s, then %s" % (ns, v[0][:80], v[1][:80]))
@@ -1093,8 +1119,8 @@ def run(res, tier, seed, proof):
     cases = gen_cases(rnd, 300 if quick else 16000)
     k, max_perms = (3, 8) if quick else (5, 23)
     mm = metamorphic(res, cases, rnd, k, max_perms)
-    pr = probe_part(res, cases[:220] if quick else cases[:4000], rnd, 3, 2)
-    cli_cases = cases[:110] if quick else cases[:1500]
+    pr = probe_part(res, cases[:230] if quick else cases[:4000], rnd, 3, 2)
+    cli_cases = cases[:118] if quick else cases[:1500]
     cli = cli_part(res, cli_cases, rnd, 3 if quick else 4, 4 if quick else 8)
     cov = dict(
         evaluations=es_evals + mm["runs"] + pr["runs"] + cli["invocations"],
@@ -1116,7 +1142,7 @@ def run(res, tier, seed, proof):
              "repeated and with permuted arguments; and on directory layouts: a search path scanned with -p over directories holding "
              "the same module name (import loaded on demand), files read by path next to a rejected file whose directory holds the "
              "imports.  (2b) the "
-             "c05probe command on the same sets: Entry.Print twice, FindModuleByNamespace twice per namespace, GetModule twice and "
+             "c05probe command on the same sets (incl. bits sharing a position): Entry.Print twice, every enumeration/bits type asked twice and ValueMap against Name, FindModuleByNamespace twice per namespace, GetModule twice and "
              "after flipping IgnoreDeviateNotSupported against fresh sets; compared inside one run, across repeats and load orders.  "
              "non-trivial = more than one file / distinct set of error texts",
         errorsort=es_stats, metamorphic=mm, probe=pr, cli=cli, k_repeats=k, max_perms=max_perms,
